@@ -835,6 +835,16 @@ where
                 wait_for(token_future, job_futures.as_mut())
                     .await
                     .map_err(RedoError::opaque_error)?;
+                // The token may be the very one a job handed back by exiting in this
+                // wake-up.  Take note of every job that has finished before deciding to
+                // go on: without --keep-going no new target is started once a failure
+                // is known, and at -j1 a failure is always known by the time the token
+                // is back.
+                {
+                    use futures::future::FutureExt;
+                    use futures::stream::StreamExt;
+                    while let Some(Some(())) = job_futures.as_mut().next().now_or_never() {}
+                }
                 let errored = {
                     let r = result.replace(Ok(()));
                     let errored = r.is_err();
